@@ -2,9 +2,11 @@ import XmpModel.FmtS3m
 /-!
 # C19 — FastTracker II Extended Module (XM 1.04) codec
 
-* `Xm.write` : independent encoder from the XM format description (60+276 byte header,
+* `Xm.write` : independent encoder from the XM format description (60-byte + `hsz`-byte header,
+  `hsz` = 276 by default, any size down to 20 + song length: the stored order table is `hsz - 20` bytes;
   per-pattern headers with packed/unpacked cells and every redundant packing-mask choice,
-  263-byte instrument headers with 96-key map, 40-byte sample headers, delta-encoded
+  instrument headers of any size the loader accepts — 263 by default, ≥ 241 with 96-key map, 33..240
+  stripped, ≥ 29 for instruments without samples —, 40-byte sample headers, delta-encoded
   8/16-bit PCM, mono or stereo blocks).
 * `Xm.read` mirrors `xm_test`/`xm_load`/`load_xm_pattern`/`load_instruments`
   (src/loaders/xm_load.c) for version 1.04 files.  `none` = model silent (short file,
@@ -156,11 +158,14 @@ structure Opts where
   restart : Nat := 0
   flags : Nat := 1
   emptyZero : Bool := false                      -- store empty patterns with data size 0
-  emptyInsSize : Nat := 29                       -- header size written for instruments without samples (29, 33 or 263)
+  emptyInsSize : Nat := 29                       -- header size written for instruments without samples (any size ≥ 29)
   fx : Nat → UInt8 × UInt8 := fun _ => (0, 0)
   volfx : Nat → UInt8 := fun _ => 0
   mode : Nat → Nat := fun _ => 0
   filler : Nat → UInt8 := fun _ => 0             -- envelopes, vibrato, fadeout, reserved bytes
+  hsz : Nat := 276                               -- song header size stored at offset 60: the order table written is `hsz - 20` bytes
+  insSize : Nat → Nat := fun _ => 263            -- header size of instrument `i` when it has samples: ≥ 241 full header
+                                                 -- (key map, envelopes, …, `size - 241` skipped bytes), 33..240 stripped header
 
 def isEmptyPat (p : Pat) : Bool := p.cells.all fun c => c.note = 0 && c.ins = 0 && c.vol = 0
 
@@ -172,16 +177,19 @@ def encPats (o : Opts) : List Pat → Nat → Bytes
   | [], _ => []
   | p :: ps, ci => encPat o p ci ++ encPats o ps (ci + p.cells.length)
 
-/-- instrument `x` with its samples `ms` (in sub-instrument order) -/
-def encIns (o : Opts) (x : Ins) (ms : List Smp) (seed : Nat) : Bytes :=
+/-- instrument `x` with its samples `ms` (in sub-instrument order); `sz` = header size when it has samples:
+`sz ≥ 241` = 33 fixed bytes, 96-byte key map, `sz - 129` bytes of envelopes / vibrato / fadeout / reserved / skipped
+space; `33 ≤ sz < 241` = stripped header (33 fixed bytes and `sz - 33` skipped bytes, no key map) -/
+def encIns (o : Opts) (x : Ins) (ms : List Smp) (sz seed : Nat) : Bytes :=
   if x.subs.isEmpty then
     let sz := o.emptyInsSize
     le32 sz ++ padTo 22 x.name ++ [0] ++ le16 0 ++
-      (if sz ≥ 33 then le32 40 ++ (List.range (sz - 33)).map (fun k => o.filler (seed + k)) else [])
+      (if sz ≥ 33 then le32 40 ++ (List.range (sz - 33)).map (fun k => o.filler (seed + k))
+       else (List.range (sz - 29)).map (fun k => o.filler (seed + k)))
   else
-    le32 263 ++ padTo 22 x.name ++ [0] ++ le16 x.subs.length ++ le32 40 ++
-    ((x.keymap.drop 12).take 96).map u8 ++
-    (List.range (96 + 14 + 2 + 22)).map (fun k => o.filler (seed + k)) ++
+    le32 sz ++ padTo 22 x.name ++ [0] ++ le16 x.subs.length ++ le32 40 ++
+    (if sz ≥ 241 then ((x.keymap.drop 12).take 96).map u8 ++ (List.range (sz - 129)).map (fun k => o.filler (seed + k))
+     else (List.range (sz - 33)).map (fun k => o.filler (seed + k))) ++
     (ms.zip x.subs).flatMap (fun (m, sub) => encSmpHdr m sub) ++
     ms.flatMap (fun m => storePcm m.flg m.len m.pcm)
 
@@ -190,10 +198,10 @@ def insSmps (smps : List Smp) (x : Ins) : List Smp := x.subs.map fun sub => smps
 
 def write (s : Module) (o : Opts) : Bytes :=
   str "Extended Module: " ++ padTo 20 s.name ++ [0x1a] ++ padTo 20 o.tracker ++ le16 0x0104 ++
-  le32 276 ++ le16 s.orders.length ++ le16 o.restart ++ le16 s.chn ++ le16 s.pats.length ++ le16 s.ins.length ++
-  le16 o.flags ++ le16 s.spd ++ le16 s.bpm ++ padTo 256 s.orders ++
+  le32 o.hsz ++ le16 s.orders.length ++ le16 o.restart ++ le16 s.chn ++ le16 s.pats.length ++ le16 s.ins.length ++
+  le16 o.flags ++ le16 s.spd ++ le16 s.bpm ++ padTo (o.hsz - 20) s.orders ++
   encPats o s.pats 0 ++
-  (s.ins.zipIdx.flatMap fun (x, i) => encIns o x (insSmps s.smps x) (1000 * i))
+  (s.ins.zipIdx.flatMap fun (x, i) => encIns o x (insSmps s.smps x) (o.insSize i) (1000 * i))
 
 /-- the module as libxmp presents it: one extra empty 64-row pattern -/
 def loaded (s : Module) : Module :=
@@ -222,14 +230,16 @@ def readPats (chn : Nat) (file : Bytes) : Nat → Nat → Option (List Pat × Na
             | none => none
             | some cells => (readPats chn file n (dpos + dsz)).map fun (ps, e) => ({ rows := r, cells := cells } :: ps, e)
 
-/-- sample bodies of one instrument, sequentially from `pos` -/
-def readBodies (file : Bytes) : List Smp → Nat → Option (List Smp)
+/-- sample bodies of one instrument, sequentially from `pos`; each sample comes with the raw `length` field (bytes)
+of its 40-byte header.  `is_ogg_sample`: the OXM probe ("OggS" at offset 4) is made only for samples of at least
+4 frames whose stored length is at least 8 bytes, i.e. it never looks beyond the sample's own stored bytes. -/
+def readBodies (file : Bytes) : List (Smp × Nat) → Nat → Option (List Smp)
   | [], _ => some []
-  | m :: ms, pos =>
+  | (m, raw) :: ms, pos =>
     if m.len = 0 then (readBodies file ms pos).map (m :: ·)
     else
       let n := m.len * frameBytes m.flg
-      if m.len ≥ 4 ∧ ((file.drop (pos + 4)).take 4 = str "OggS") then none
+      if m.len ≥ 4 ∧ raw ≥ 8 ∧ ((file.drop (pos + 4)).take 4 = str "OggS") then none
       else if pos + n > file.length then none
       else
         let (lps, lpe, flg) := loopSanity m.len m.lps m.lpe m.flg
@@ -276,7 +286,7 @@ def readIns (file : Bytes) : (n : Nat) → (pos : Nat) → (sid : Nat) → Optio
             else if hdrs.any (fun h => h.reserved = 0xad) then none      -- ADPCM: not modelled
             else
               let subs := hdrs.zipIdx.map fun (h, j) => hdrSub (sid + j) h
-              let smps0 := hdrs.map hdrSmp
+              let smps0 := hdrs.map fun h => (hdrSmp h, h.length)
               match readBodies file smps0 (hpos + 40 * nsm) with
               | none => none
               | some smps =>
@@ -349,8 +359,17 @@ def SmpOk (m : Smp) : Prop :=
   NameOk 22 m.name ∧ m.sus = 0 ∧ m.sue = 0 ∧ m.flg &&& (F16BIT ||| FLOOP ||| FBIDIR ||| FSTEREO) = m.flg ∧
   (m.flg &&& FBIDIR ≠ 0 → m.flg &&& FLOOP ≠ 0) ∧ m.len ≤ 0x100000 ∧ m.pcm.length = m.len * frameBytes m.flg ∧
   (if m.flg &&& FLOOP ≠ 0 then m.lps < m.lpe ∧ m.lpe ≤ m.len else m.lps = 0 ∧ m.lpe = 0) ∧
-  ((storePcm m.flg m.len m.pcm).drop 4).take 4 ≠ str "OggS"
+  (m.len ≥ 4 → ((storePcm m.flg m.len m.pcm).drop 4).take 4 ≠ str "OggS")
 instance (m : Smp) : Decidable (SmpOk m) := by unfold SmpOk; infer_instance
+
+/-- the stored sample bodies of one instrument, in file order -/
+def bodies (ms : List Smp) : Bytes := ms.flatMap fun m => storePcm m.flg m.len m.pcm
+
+/-- the header size chosen for instrument `i` (if it has samples) is one the loader accepts; a stripped header
+(`< 241`) carries no key map, so the instrument's key map must be all zero -/
+def SizeOk (o : Opts) (x : Ins) (i : Nat) : Prop :=
+  x.subs ≠ [] → 33 ≤ o.insSize i ∧ o.insSize i < 0x80000000 ∧ (o.insSize i < 241 → ∀ k ∈ x.keymap, k = 0)
+instance (o : Opts) (x : Ins) (i : Nat) : Decidable (SizeOk o x i) := by unfold SizeOk; infer_instance
 
 def WellFormed (s : Module) (o : Opts) : Prop :=
   NameOk 20 s.name ∧ o.tracker.take 6 ≠ str "MED2XM" ∧ (1 ≤ s.chn ∧ s.chn ≤ 64) ∧
@@ -358,7 +377,8 @@ def WellFormed (s : Module) (o : Opts) : Prop :=
   s.pats.length ≤ 256 ∧ (∀ p ∈ s.pats, PatOk s.chn p) ∧ s.ins.length ≤ 255 ∧ InssOk 0 s.ins ∧
   s.smps.length = (s.ins.map (·.subs.length)).sum ∧ (∀ m ∈ s.smps, SmpOk m) ∧
   (1 ≤ s.spd ∧ s.spd ≤ 31) ∧ (32 ≤ s.bpm ∧ s.bpm ≤ 1000) ∧
-  (o.emptyInsSize = 29 ∨ o.emptyInsSize = 33 ∨ o.emptyInsSize = 263) ∧ o.restart < 65536 ∧ o.flags < 65536
+  (29 ≤ o.emptyInsSize ∧ o.emptyInsSize < 0x80000000) ∧ o.restart < 65536 ∧ o.flags < 65536 ∧
+  (20 + s.orders.length ≤ o.hsz ∧ o.hsz ≤ 276) ∧ (∀ p ∈ s.ins.zipIdx, SizeOk o p.1 p.2)
 
 instance (s : Module) (o : Opts) : Decidable (WellFormed s o) := by unfold WellFormed; infer_instance
 
